@@ -579,6 +579,10 @@ def scenarios():
         {"name": "init-same-populated", "pre": "populated", "scripts": [[P(), I(SP2)], [P(), I(SP2)]]},
         {"name": "init-different", "pre": "empty", "scripts": [[P(), I(SP2)], [P(), I(SP3)]]},
         {"name": "init-existing", "pre": "populated", "scripts": [[P(), I(SP1)], [P(), I(SP1), Ln]]},
+        # two initialisers of ONE new job, one of them counts the jobs right after its own init() returned: whatever the
+        # other process is doing, only one job was ever requested
+        {"name": "init-same-then-len", "pre": "empty", "scripts": [[P(), I(SP2)], [P(), I(SP2), Ln]]},
+        {"name": "init-same-then-len-populated", "pre": "populated", "scripts": [[P(), I(SP2), Ln], [P(), I(SP2), Ln]]},
         {"name": "docs-different-jobs", "pre": "populated",
          "scripts": [[P(), S(SP1, "u", 1), R(SP1)], [P(), S(SP2, "v", "two"), R(SP2)]]},
         {"name": "doc-reader-writer", "pre": "populated",
@@ -626,6 +630,7 @@ def scenarios3():
     I, S, R, Ln = (lambda sp: ["Init", sp]), (lambda sp, k, v: ["DocSet", sp, k, v]), (lambda sp: ["DocRead", sp]), ["Len"]
     return [
         {"name": "3-init-same", "pre": "empty", "scripts": [[P(), I(SP2)], [P(), I(SP2)], [P(), I(SP2)]]},
+        {"name": "3-init-same-vs-len", "pre": "empty", "scripts": [[P(), I(SP2)], [P(), I(SP2)], [P(), Ln, Ln]]},
         {"name": "3-mixed", "pre": "populated",
          "scripts": [[P(), I(SP2), S(SP2, "a", 1)], [P(), S(SP1, "b", 2)], [P(), R(SP1), Ln, R(SP2)]]},
     ]
